@@ -52,6 +52,60 @@ func (c *Ctx) Guarded(fn *ssa.Function, sinkDesc string, sel SinkSel, guards ...
 	}
 }
 
+// GuardedBetween (rule G): on every path that starts right after an instruction selected by from and reaches one selected
+// by sink without passing one selected by stop, each guard has been passed. Used for loops: "from receiving a request,
+// the loop head is reached again without having armed the timer only when the request was tested to be stale".
+func (c *Ctx) GuardedBetween(fn *ssa.Function, desc string, from, stop, sink SinkSel, guards ...Guard) {
+	if fn == nil {
+		return
+	}
+	starts := findInstrs(fn, from)
+	sinks := findInstrs(fn, sink)
+	for _, g := range guards {
+		key := fnName(fn) + "/" + desc + " <= " + g.Desc
+		if len(starts) == 0 || len(sinks) == 0 || len(findInstrs(fn, stop)) == 0 {
+			c.Unres("G", key, "start, stop or end of '"+desc+"' not found in "+fnName(fn)+" (anchor moved?)")
+			continue
+		}
+		sites := c.P.guardEdges(fn, g)
+		if len(sites) == 0 {
+			c.Bad("G", key, instrPos(starts[0]), len(starts), fmt.Sprintf("guard '%s' not found in %s: no branch tests it with the required polarity", g.Desc, fnName(fn)))
+			continue
+		}
+		rm := map[edge]bool{}
+		var gd []string
+		for _, s := range sites {
+			rm[s.Pass] = true
+			gd = append(gd, s.Desc)
+		}
+		isSink := map[ssa.Instruction]bool{}
+		for _, s := range sinks {
+			isSink[s] = true
+		}
+		bad := false
+		for _, st := range starts {
+			idx := 0
+			for i, in := range st.Block().Instrs {
+				if in == st {
+					idx = i + 1
+				}
+			}
+			w := &Walker{P: c.P, Removed: rm, Stop: stop}
+			hit, found := w.Reach(fn, st.Block(), idx, func(in ssa.Instruction) bool { return isSink[in] })
+			if found {
+				bad = true
+				c.Bad("G", key, instrPos(st), len(starts)+len(sites), fmt.Sprintf("from %s the point %s is reached without %s and without passing guard '%s' (guards seen: %s); path %s",
+					describeInstr(st), describeInstr(hit.Instr), "the stop step", g.Desc, strings.Join(gd, " | "), c.P.pathStr(hit.Path)))
+				break
+			}
+		}
+		if !bad {
+			c.OK("G", key, instrPos(starts[0]), len(starts)+len(sites), "only through: "+strings.Join(gd, " | "))
+			c.recordFlipSites(key, sites)
+		}
+	}
+}
+
 // Precedes (rule O): on every path from the entry of fn to an instruction selected by then, an instruction
 // selected by first occurs before it.
 func (c *Ctx) Precedes(fn *ssa.Function, firstDesc string, first SinkSel, thenDesc string, then SinkSel) {
